@@ -44,7 +44,7 @@ def reads_needed(sizes, cap):
 
 def build(r, cid, tier, kind):
     """one pipe case; returns Case"""
-    budget = 300_000 if tier == "quick" else 3_000_000
+    budget = 200_000 if tier == "quick" else 3_000_000
     ns = 1 if kind in ("single-big", "all-splits") else r.randint(1, 4 if tier == "quick" else 8)
     scheme = r.randrange(len(G.SCHEMES))
     st = r.random() < 0.5
@@ -190,7 +190,7 @@ def all_splits(r, cid0):
 def gen_cases(tier, seed):
     r = rng(seed, "C01")
     cs = []
-    n = {"quick": 260, "thorough": 4000}[tier]
+    n = {"quick": 200, "thorough": 4000}[tier]
     kinds = ["mixed"] * 5 + ["single-big", "async-write", "bytewise"]
     for i in range(n):
         cs.append(build(r, "p%d" % i, tier, kinds[i % len(kinds)]))
